@@ -17,5 +17,5 @@ git checkout -q -- .
 CARGO_NET_OFFLINE=true cargo build --workspace --offline >> "$LOG" 2>&1
 echo "== demo (pristine)" >> "$LOG"
 bash "$V/demo/run.sh" "$WT" >> "$LOG" 2>&1; D0=$?
-echo "tests_rc=$TRC ok_lines=$PASS fail_lines=$FAILL demo_patched_rc=$D1 demo_pristine_rc=$D0"
-if [ $TRC -eq 0 ] && [ $D1 -ne 0 ] && [ $D0 -eq 0 ]; then echo "SEED-CONFIRMED"; else echo "SEED-REJECTED"; fi
+{ echo "tests_rc=$TRC ok_lines=$PASS fail_lines=$FAILL demo_patched_rc=$D1 demo_pristine_rc=$D0"
+if [ $TRC -eq 0 ] && [ $D1 -ne 0 ] && [ $D0 -eq 0 ]; then echo "SEED-CONFIRMED"; else echo "SEED-REJECTED"; fi; } | tee "$WT/$V/verify.summary"
